@@ -245,6 +245,8 @@ def class_members(hdr_src):
                 depth += 1
             elif c == "}":
                 depth -= 1
+                if depth == 0:
+                    flat.append(";")
             elif depth == 0:
                 flat.append(c)
         mem = {}
@@ -318,6 +320,8 @@ def num_literal(t, consts):
     e = int(ex or 0) - len(fp or "")
     while mant and mant % 10 == 0 and e < 0:
         mant //= 10; e += 1
+    if mant == 0:
+        e = 0
     if sign == "-":
         mant = -mant
     if isint:
@@ -357,7 +361,14 @@ def ctor_defaults(src, cls, consts, mem):
 
 def default_of(dfl, field, kind, consts, enums):
     base = field.split(".")[0]
+    if base not in dfl and kind == "str":
+        return ("str", "")           # std::string member without initialiser: empty
     if base not in dfl:
+        if enums is not None:
+            # numeric member with no initialiser anywhere in the constructor chain: the value read
+            # when the key is absent is indeterminate (recorded, reported by the check)
+            enums.append(field)
+            return ("dec", 0, 0) if kind == "num" else ("int", 0)
         raise TranslateError("no constructor default found for field " + field)
     t = dfl[base]
     if kind == "str":
@@ -493,7 +504,9 @@ def analyse_key_body(body, mem, cls, what):
         return ent
     if pv:
         lv = pv[0]
-        if re.fullmatch(r"\w+", lv) and any(re.match(r"^int\s+%s$" % lv, t) for t in texts):
+        allst = [x[1] for x in flatten(stm) if x[0] == "stmt"] + [x[1] for x in flatten(stm) if x[0] == "loop"]
+        if (re.fullmatch(r"\w+", lv) and any(re.match(r"^int\s+%s$" % lv, t) for t in texts)) or \
+           any(re.search(r"::fromStream|getline\s*\(\s*input", t) for t in allst):
             # local counter: a section "[xxxprops] = k" followed by k blocks / lines
             cl = None
             for nd in flatten(stm):
@@ -548,7 +561,7 @@ def cond_filetype(cond, ftype):
         return None
     expr = re.sub(r"(?:\w+->)?filetype\s*(==|!=)\s*(?:femm::)?FileType::(\w+)",
                   lambda m: str((m.group(2) == ftype) == (m.group(1) == "==")), c)
-    expr = expr.replace("||", " or ").replace("&&", " and ")
+    expr = " ".join(expr.replace("||", " or ").replace("&&", " and ").split())
     return bool(eval(expr))                        # only True/False/and/or/() remain
 
 
@@ -634,7 +647,7 @@ class PrintWalker:
         if m and m.group(1) == m.group(2):
             f, k = field_kind(self.mem, self.cls, m.group(1))
             return f, "num", ("maxarea",)
-        m = re.fullmatch(r"([\w\.>\-]+)\.size\(\)", e)
+        m = re.fullmatch(r"([\w\.>\-]+)\.size\(\)(\s*-\s*numHoles)?|numHoles", e)
         if m:
             return None
         m = re.fullmatch(r"[\w\.>\-]+", e)
@@ -666,6 +679,11 @@ class PrintWalker:
                     pass
                 elif not self.touches_stream(nd):
                     pass
+                elif re.fullmatch(r"!?\s*\w+->isHole\(\)", nd[1].strip()) and not nd[3]:
+                    self.walk(nd[2], conds)          # selection of holes / non-holes of labellist
+                elif (re.fullmatch(r"\w+\s*>\s*0", nd[1].strip()) and self.entries and self.entries[-1].get("count_of")
+                      and self.entries[-1]["src"] == ("field", nd[1].split(">")[0].strip()) and not nd[3]):
+                    self.walk(nd[2], conds)          # if (npts > 0) { rows }
                 else:
                     c = self.cond_expr(nd[1])
                     self.walk(nd[2], conds + (c,))
@@ -966,9 +984,17 @@ def const_entry(e, what):
     return lit
 
 
+UNINIT = []
+
+
 def header_parse(mem, reader_src, func_regex, cls, handle_src, handle_cls, consts, dfl, what, prefix_cls="FemmProblem"):
     _, body = function_body(reader_src, func_regex, what)
     ents = keyed_parse_entries(parse_stmts(body), mem, prefix_cls, what)
+    if handle_cls and not re.search(r"\bbool\s+%s::handleToken\s*\(" % handle_cls, handle_src):
+        # no override: the base implementation rejects every token; the class itself must exist
+        if not re.search(r"\b%s::%s\s*\(" % (handle_cls, handle_cls), handle_src):
+            raise TranslateError("anchor not found: class " + handle_cls)
+        handle_cls = None
     if handle_cls:
         _, hb = function_body(handle_src, r"\bbool\s+%s::handleToken\s*\(" % handle_cls, handle_cls + "::handleToken")
         hnodes = parse_stmts(hb)
@@ -981,7 +1007,11 @@ def header_parse(mem, reader_src, func_regex, cls, handle_src, handle_cls, const
             continue
         d = None
         if e["kind"] != "ignored":
-            d = default_of(dfl, e["field"], e["kind"], consts, None)
+            un = []
+            d = default_of(dfl, e["field"], e["kind"], consts, un)
+            for f in un:
+                if (prefix_cls, f) not in UNINIT:
+                    UNINIT.append((prefix_cls, f))
         P.append(dict(key=e["key"], field=e["field"], kind=e["kind"], tf=("id",), dflt=d, cap=None, enum=e.get("enum")))
     return P, sections
 
@@ -1134,6 +1164,7 @@ def loop_body_of(nd, what):
 # ---------------------------------------------------------------------------------- main ----
 def translate(src_root):
     """Returns dict name -> (parse entries, print entries) ; keyed and positional."""
+    del UNINIT[:]
     L = os.path.join(src_root, "libfemm")
     mem = Members()
     for h in ["CMaterialProp.h", "CBoundaryProp.h", "CPointProp.h", "CCircuit.h", "CBlockLabel.h", "CNode.h",
@@ -1146,10 +1177,40 @@ def translate(src_root):
         consts[m.group(1)] = m.group(2)
     out = {}
     files = {"CPointProp": "CPointProp.cpp", "CBoundaryProp": "CBoundaryProp.cpp", "CMaterialProp": "CMaterialProp.cpp",
-             "CCircuit": "CCircuit.cpp"}
-    for cls, base in PROP_CLASSES:
-        src = strip_comments(read(os.path.join(L, files[base])))
-        out[cls] = keyed_class(mem, src, cls, consts)
+             "CCircuit": "CCircuit.cpp", "CBlockLabel": "CBlockLabel.cpp"}
+    # which classes the three readers are instantiated with (FemmReader.cpp, "template class femm::FemmReader<...>")
+    rsrc0 = strip_comments(read(os.path.join(L, "FemmReader.cpp")))
+    inst = re.findall(r"template\s+class\s+(?:femm::)?FemmReader\s*<([^>]*)>", rsrc0)
+    classes = {}
+    for args in inst:
+        cl = [a.strip().split("::")[-1] for a in args.split(",")]
+        if len(cl) != 5:
+            raise TranslateError("FemmReader instantiation with %d arguments" % len(cl))
+        ft = {"M": "fem", "S": "fee", "H": "feh"}.get(cl[0][1])
+        if ft is None or ft in classes:
+            raise TranslateError("cannot attribute FemmReader instantiation to a file type: " + args)
+        classes[ft] = cl
+    if sorted(classes) != ["fee", "feh", "fem"]:
+        raise TranslateError("expected three FemmReader instantiations, found %r" % sorted(classes))
+    # the solvers must read with the same classes (fsolver.h / esolver.h / hsolver.h)
+    for ft, (sf, sc) in SOLVERS.items():
+        hs = strip_comments(read(os.path.join(src_root, sf[:-4] + ".h")))
+        m = re.search(r"class\s+%s\s*:\s*public\s+FEASolver\s*<([^>]*)>" % sc, hs)
+        if not m:
+            raise TranslateError("anchor not found: class %s : public FEASolver<...>" % sc)
+        cl = [a.strip().split("::")[-1] for a in m.group(1).split(",")][:5]
+        if cl != classes[ft]:
+            raise TranslateError("%s reads with %r but the %s reader with %r" % (sc, cl, ft, classes[ft]))
+    out["_classes"] = classes
+    for ft in ("fem", "fee", "feh"):
+        for cls in classes[ft][:4]:
+            base = cls
+            while mem.cls.get(base, (None,))[0]:
+                base = mem.cls[base][0]
+            if base not in files:
+                raise TranslateError("no source file known for class " + cls)
+            src = strip_comments(read(os.path.join(L, files[base])))
+            out[cls] = keyed_class(mem, src, cls, consts)
 
     # ---- global header ---------------------------------------------------------------
     rsrc = strip_comments(read(os.path.join(L, "FemmReader.cpp")))
@@ -1189,7 +1250,7 @@ def translate(src_root):
                 raise TranslateError("writeProblemDescription: no single positional line for " + key)
             out["%s.%s" % (name, ft)] = positional_pair(cols, ent_w[wkey[0]][0][0], mem, cls, read_ctor(L, cls), consts)
     lsrc = strip_comments(read(os.path.join(L, "CBlockLabel.cpp")))
-    for cls in LABEL_CLASSES:
+    for cls in [classes[ft][4] for ft in ("fem", "feh", "fee")]:
         cols = positional_parse_labels(mem, lsrc, cls)
         what = cls + "::toStream"
         _, body = function_body(lsrc, r"\bvoid\s+%s::toStream\s*\(\s*(?:std::)?ostream\s*&\s*out\s*\)" % cls, what)
@@ -1199,12 +1260,14 @@ def translate(src_root):
             raise TranslateError(what + ": expected one positional line")
         out[cls] = positional_pair(cols, w.lines[0], mem, cls, lsrc, consts)
     out["_sections"] = sections
+    out["_uninit"] = list(UNINIT)
     return out
 
 
 def read_ctor(L, cls):
-    f = {"CNode": "CNode.cpp", "CSegment": "CSegment.cpp", "CArcSegment": "CArcSegment.cpp", "CBlockLabel": "CBlockLabel.cpp"}[cls]
-    return strip_comments(read(os.path.join(L, f))).replace("femm::CNode::CNode", "CNode::CNode")
+    fs = {"CNode": ["CNode.cpp"], "CSegment": ["CSegment.cpp"], "CArcSegment": ["CSegment.cpp", "CArcSegment.cpp"],
+          "CBlockLabel": ["CBlockLabel.cpp"]}[cls]
+    return "\n".join(strip_comments(read(os.path.join(L, f))) for f in fs).replace("femm::CNode::CNode", "CNode::CNode")
 
 
 def rename_fields(W, ren):
@@ -1391,8 +1454,20 @@ def emit(schemas):
             rows.append("  mkWE %s %s %s %s %s" % (cq(e["key"]), coq_src(e), kk, coq_tf(e["tf"]), coq_cond(e["cond"])))
         L.append(";\n".join(rows) + "].")
         L.append("")
+    rw = [n for n in names if not n.startswith("SolverHeader")]
+    ac = [n for n in names if n.startswith("SolverHeader")]
+    L.append("(* reader/writer pairs of femmcli, fmesher and the post-processors *)")
     L.append("Definition gen_schemas : list named := [")
-    L.append(";\n".join("  (%s, ps_%s, pr_%s)" % (cq(n), ident(n), ident(n)) for n in names) + "].")
+    L.append(";\n".join("  (%s, ps_%s, pr_%s)" % (cq(n), ident(n), ident(n)) for n in rw) + "].")
+    L.append("(* the solvers' own header reader against the same writer: every written key must be accepted *)")
+    L.append("Definition gen_accept_schemas : list named := [")
+    L.append(";\n".join("  (%s, ps_%s, pr_%s)" % (cq(n), ident(n), ident(n)) for n in ac) + "].")
+    cl = schemas.get("_classes", {})
+    for ft in sorted(cl):
+        L.append("Definition classes_%s : list string := [%s]." % (ft, "; ".join(cq(c) for c in cl[ft])))
+    un = schemas.get("_uninit", [])
+    L.append("(* numeric members read by a key but initialised by no constructor (value indeterminate when the key is absent) *)")
+    L.append("Definition uninitialised_members : list (string * string) := [%s]." % "; ".join("(%s, %s)" % (cq(a), cq(b)) for a, b in un))
     L.append("")
     # sections: which classes the readers instantiate for each "[xxxprops]" key, per file type
     sec = schemas.get("_sections", {})
